@@ -45,6 +45,13 @@ pub struct Account<'info, T> { pub data: T, pub k: Pubkey, pub p: core::marker::
 impl<'info, T> Account<'info, T> {
     pub fn key(&self) -> (r: Pubkey) ensures r == self.k { self.k }
 }
+/// the address of an account wrapper, as a spec function (used by the generated constraints_<Struct> predicates)
+pub trait SKey { spec fn skey(&self) -> Pubkey; }
+/// the program that owns an account (AccountInfo::owner), as a spec function
+pub trait SOwner { spec fn sowner(&self) -> Pubkey; }
+impl<T: SOwner> SOwner for Box<T> { open spec fn sowner(&self) -> Pubkey { (**self).sowner() } }
+impl<'info, T> SKey for Account<'info, T> { open spec fn skey(&self) -> Pubkey { self.k } }
+impl<T: SKey> SKey for Box<T> { open spec fn skey(&self) -> Pubkey { (**self).skey() } }
 impl<'info, T> std::ops::Deref for Account<'info, T> {
     type Target = T;
     fn deref(&self) -> (r: &T) ensures *r == self.data { &self.data }
